@@ -983,6 +983,50 @@ def main():
 
     keys_c19(out)
 
+    # ---- C17: mlar refuses to open an unencrypted archive when a private key is supplied
+    out.append("(* mlar/src/main.rs: key policy of open_mla_file / readerconfig_from_matches; 1 = as documented *)")
+    try:
+        mrs = read("mlar/src/main.rs")
+        rc = re.sub(r"//[^\n]*", "", find_fn_body(mrs, "readerconfig_from_matches")[0])
+        om = re.sub(r"//[^\n]*", "", find_fn_body(mrs, "open_mla_file")[0])
+        k1 = re.search(r"if\s+matches\.contains_id\(\"private_keys\"\)\s*\{.*config\.add_private_keys\(&private_keys\)\s*;\s*config\.layers_enabled\.insert\(Layers::ENCRYPT\)\s*;\s*\}", rc, re.S)
+        k2 = re.search(r"if\s+config\.layers_enabled\.contains\(Layers::ENCRYPT\)\s*&&\s*!header\.config\.layers_enabled\.contains\(Layers::ENCRYPT\)\s*\{[^}]*return\s+Err\(MlarError::PrivateKeyProvidedButNotUsed\)\s*;\s*\}", om, re.S)
+        k3 = om.find("ArchiveHeader::from(&mut file)") >= 0 and om.find("ArchiveReader::from_config(file, config)") > om.find("PrivateKeyProvidedButNotUsed")
+        out.append("Definition CLI_key_sets_encrypt_expectation : N := %d." % (1 if k1 else 0))
+        out.append("Definition CLI_refuses_key_on_unencrypted_before_reading : N := %d." % (1 if (k2 and k3) else 0))
+    except Exception as e:  # fail closed
+        out.append("(* open_mla_file: %s *)" % e)
+        out.append("Definition CLI_key_policy_untranslatable : unit := tt.")
+    out.append("")
+
+    # ---- C bindings: MLAStatus discriminants and the null checks of every entry point (C20)
+    out.append("(* bindings/C/src/lib.rs *)")
+    try:
+        capi = read("bindings/C/src/lib.rs")
+        m = re.search(r"#\[repr\(u64\)\]\s*pub enum MLAStatus\s*\{(.*?)\n\}", capi, re.S)
+        if not m:
+            raise ParseError("enum MLAStatus not found")
+        body = re.sub(r"//[^\n]*", "", m.group(1))
+        items = re.findall(r"(\w+)\s*=\s*(0x[0-9A-Fa-f_]+|\d+)\s*,", body)
+        if not items or len(items) != len([l for l in body.split("\n") if l.strip()]):
+            raise ParseError("MLAStatus: unexpected variant syntax")
+        out.append("Definition MLA_STATUS : list (list N * N) := [%s]." % "; ".join(
+            "([%s], %d)" % ("; ".join(str(b) for b in nm.encode()), int(v.replace("_", ""), 0)) for nm, v in items))
+        # per function (source order): number of `.is_null()` tests and `None => return BadAPIArgument` arms
+        fns = list(re.finditer(r"\nfn (mla_\w+)|\npub extern \"C\" fn (mla_\w+)", capi))
+        rows = []
+        for i, fm in enumerate(fns):
+            end = fns[i + 1].start() if i + 1 < len(fns) else len(capi)
+            fbody = capi[fm.start():end]
+            n = len(re.findall(r"\.is_null\(\)", fbody)) + len(re.findall(r"None => return MLAStatus::BadAPIArgument", fbody))
+            rows.append((fm.group(1) or fm.group(2), n))
+        out.append("Definition CAPI_NULLCHECKS : list (list N * N) := [%s]." % "; ".join(
+            "([%s], %d)" % ("; ".join(str(b) for b in nm.encode()), n) for nm, n in rows))
+    except Exception as e:  # fail closed
+        out.append("(* C bindings: %s *)" % e)
+        out.append("Definition MLA_STATUS_untranslatable : unit := tt.")
+    out.append("")
+
     text = "\n".join(out) + "\n"
     outp = os.path.normpath(OUT)
     os.makedirs(os.path.dirname(outp), exist_ok=True)
